@@ -9,6 +9,7 @@ import DesyncModel.Lemmas
 import DesyncModel.Setters
 import DesyncModel.Inv.JobReach
 import DesyncModel.Inv.ResReach
+import DesyncModel.Inv.KindReach
 
 namespace Desync.C13
 open Desync Gen
@@ -82,5 +83,16 @@ theorem suspended_queue_holds_later_work {s : State} (hr : Reachable s) {j : Nat
 theorem suspend_signal_comes_from_a_begun_suspend_job {s : State} (hr : Reachable s) {a j : Nat} {c : Ctx} {k : Pc}
     (hpc : s.pcAt a = .suspSignal j c k) : ∃ jb : Job, s.jobs[j]? = some jb ∧ jb.begun = true :=
   (resInv_reachable hr).sus a j (by rw [hpc]; simp [Pc.suspSigs])
+
+/-- **Both futures of a suspend request are futures of the suspended queue**, in every reachable state (`KindInv`): the one that
+tells the caller "the queue is now suspended" (`finished_suspending`) and the one that reports the completion of the suspend job
+belong to the queue the suspend job sits in — so `resolves_only_after…` (C07) and the order theorems (C02) speak about the same
+object when they are applied to a suspension. -/
+theorem suspend_futures_belong_to_the_suspended_queue {s : State} (hr : Reachable s) {j op g fs r : Nat} {jb : Job}
+    (hj : s.jobs[j]? = some jb) (hk : jb.kind = .susp op g fs r) :
+    futQ s.futs fs = some jb.q ∧ futQ s.futs r = some jb.q := by
+  have h := (kindInv_reachable hr).jobs j jb hj
+  rw [hk] at h
+  exact h
 
 end Desync.C13
